@@ -164,6 +164,27 @@ func replaceOK(old, tx *types.Transaction) bool {
 	return tx.GasFeeCap().Cmp(thr(old.GasFeeCap())) >= 0 && tx.GasTipCap().Cmp(thr(old.GasTipCap())) >= 0
 }
 
+// basics mirrors the stateless checks (ValidateTxBasics) in the order of the code; "" = passes.
+func (m *mstate) basics(tx *types.Transaction) string {
+	h := m.h
+	head := h.ch.headBlk().header
+	switch {
+	case tx.Size() > 4*32*1024:
+		return "oversized"
+	case head.GasLimit < tx.Gas():
+		return "gaslimit"
+	case tx.GasFeeCap().Cmp(tx.GasTipCap()) < 0:
+		return "tip-above-cap"
+	case tx.Gas() < intrinsic(tx):
+		return "intrinsic"
+	case tx.GasTipCap().Cmp(big.NewInt(h.gasTip)) < 0:
+		return "tip-too-low"
+	case tx.Type() == types.SetCodeTxType && len(tx.SetCodeAuthorizations()) == 0:
+		return "empty-auth"
+	}
+	return ""
+}
+
 // predict returns the model's verdict for one transaction of an Add call: the expected class
 // ("ok" or an error class) or "?" when the model cannot decide (pool-full path, whose outcome
 // depends on the price heaps' internal arrangement). replaced reports whether an accepted
@@ -174,21 +195,8 @@ func (m *mstate) predict(tx *types.Transaction) (class string, replaced bool) {
 	if m.startAll[hash] {
 		return "known", false
 	}
-	// stateless checks (ValidateTxBasics), in the order of the code
-	head := h.ch.headBlk().header
-	switch {
-	case tx.Size() > 4*32*1024:
-		return "oversized", false
-	case head.GasLimit < tx.Gas():
-		return "gaslimit", false
-	case tx.GasFeeCap().Cmp(tx.GasTipCap()) < 0:
-		return "tip-above-cap", false
-	case tx.Gas() < intrinsic(tx):
-		return "intrinsic", false
-	case tx.GasTipCap().Cmp(big.NewInt(h.gasTip)) < 0:
-		return "tip-too-low", false
-	case tx.Type() == types.SetCodeTxType && len(tx.SetCodeAuthorizations()) == 0:
-		return "empty-auth", false
+	if c := m.basics(tx); c != "" {
+		return c, false
 	}
 	if m.stale {
 		return "?stale", false
@@ -380,7 +388,18 @@ func (h *hist) opAdd(txs []*types.Transaction) {
 			r.Count("readded_with_stale_heap_entry", 1)
 		}
 	}
-	post := h.check("add", true, pre, processed)
+	// Add runs a maintenance cycle only if some transaction passed the lock-free pre-checks
+	// (unknown hash and stateless validity); otherwise it returns early.
+	cycle := false
+	for _, tx := range txs {
+		if !m.startAll[tx.Hash()] && m.basics(tx) == "" {
+			cycle = true
+		}
+	}
+	if !cycle {
+		r.Count("add_without_cycle", 1)
+	}
+	post := h.check("add", cycle, pre, processed)
 	h.dupRisk = false
 	h.prev = post
 	if post == nil {
@@ -461,13 +480,32 @@ func (h *hist) check(op string, maint bool, pre *legacypool.VerifSnapshot, proce
 		}
 		return acct{Balance: new(big.Int)}
 	}
-	// regressed: this operation was a head change that lowered the account's state nonce
+	// regressed: this operation was a head change that lowered the account's state nonce (in
+	// stress histories, which have no per-operation snapshots: some reorg of the history did).
 	regressed := func(a common.Address) bool {
 		if pre == nil && h.stress {
-			return h.everRegressed[a] // stress histories have no per-operation snapshots
+			return h.everRegressed[a]
 		}
-		if pre != nil && pre.Head != nil {
+		if pre != nil && pre.Head != nil && (op == "reorg") {
 			if ob := h.ch.lookup(pre.Head.Hash()); ob != nil && ob.state[a].Nonce > stOf(a).Nonce {
+				return true
+			}
+		}
+		return false
+	}
+	// lostNotReadmitted: a transaction of the account with a nonce in [lo, hi] was reorged out by
+	// that head change and is not pooled now.
+	lostNotReadmitted := func(a common.Address, lo, hi uint64) bool {
+		h.mu.Lock()
+		defer h.mu.Unlock()
+		for hash, tx := range h.lost {
+			if tx.Nonce() < lo || tx.Nonce() > hi {
+				continue
+			}
+			if from, _ := types.Sender(h.e.signer, tx); from != a {
+				continue
+			}
+			if _, pooled := s.All[hash]; !pooled {
 				return true
 			}
 		}
@@ -521,21 +559,23 @@ func (h *hist) check(op string, maint bool, pre *legacypool.VerifSnapshot, proce
 		for _, tx := range l.Txs {
 			inPending[tx.Hash()] = a
 		}
-		gapless := true
 		for i, tx := range l.Txs {
-			if tx.Nonce() != st.Nonce+uint64(i) {
-				gapless = false
-				// Class split: a gap that appears in (or persists since) a head change that
-				// lowered the account's state nonce is the reorg-regression class; everything
-				// else is the generic class.
+			if want := st.Nonce + uint64(i); tx.Nonce() != want {
+				// KNOWN-FINDING class (narrow): the hole is behind the front, this operation is a
+				// reorg that lowered the account's state nonce, and a reorged-out transaction of
+				// the account with a nonce inside the hole was not re-admitted. Every other gap
+				// keeps the generic fingerprint.
 				fp := "pending:nonce-sequence"
-				if (regressed(a) && i > 0) || h.taint[a] {
+				if i > 0 && regressed(a) && lostNotReadmitted(a, want, tx.Nonce()-1) {
 					fp = "pending:nonce-gap-after-nonce-regression"
-					h.taint[a] = true
+					h.dead = true // cascade control: stop this history
 				}
 				h.viol(fp, fmt.Sprintf("after %s: pending of %s has nonce %d at position %d, state nonce %d (pending nonces %v)", op, h.addrName(a), tx.Nonce(), i, st.Nonce, l.Index))
 				break
 			}
+		}
+		if h.dead {
+			return s
 		}
 		for _, tx := range l.Txs {
 			if tx.Cost().Cmp(st.Balance) > 0 {
@@ -547,22 +587,19 @@ func (h *hist) check(op string, maint bool, pre *legacypool.VerifSnapshot, proce
 		}
 		want := l.Txs[len(l.Txs)-1].Nonce() + 1
 		if got, ok := s.PendingNonces[a]; !ok || got != want {
+			// KNOWN-FINDING follow-up (narrow): same root cause, but truncatePending cut the
+			// transaction behind the hole within the same reset cycle, leaving the virtual nonce
+			// above last+1. Required: reorg lowered the state nonce, pendingNonces > last+1, and a
+			// reorged-out transaction with a nonce in [last+1, pendingNonces] was not re-admitted.
 			fp := "pendingnonce"
-			if regressed(a) && ok && got > want {
-				// a hole left by the regression was cut off by truncatePending in the same cycle
-				h.taint[a] = true
-			}
-			if h.taint[a] {
-				fp = "pendingnonce-after-nonce-regression" // follow-up of a hole left by a nonce regression
+			if ok && got > want && regressed(a) && lostNotReadmitted(a, want, got) {
+				fp = "pendingnonce-after-nonce-regression"
+				h.dead = true
 			}
 			h.viol(fp, fmt.Sprintf("after %s: pendingNonces[%s]=%d (present %v), last pending nonce+1=%d", op, h.addrName(a), got, ok, want))
-		} else if gapless {
-			delete(h.taint, a)
-		}
-	}
-	for a := range h.taint {
-		if s.Pending[a] == nil {
-			delete(h.taint, a)
+			if h.dead {
+				return s
+			}
 		}
 	}
 	for a, l := range s.Queue {
@@ -615,19 +652,14 @@ func (h *hist) check(op string, maint bool, pre *legacypool.VerifSnapshot, proce
 	for _, hash := range s.Floating {
 		inHeap[hash]++
 	}
-	dupNow := false
-	for _, n := range inHeap {
-		if n > 1 {
-			dupNow = true
-		}
-	}
-	if pop := int64(len(s.Urgent)+len(s.Floating)) - s.Stales; pop == int64(len(s.All)) {
-		h.pricedTaint = false
-	} else {
-		// Class split: the stale counter drifts when a removed transaction was re-added while
-		// its stale heap entry still existed (two entries for one hash, both looking live) and
-		// Discard then pops both. Attributed when the previous snapshot shows such a duplicate.
+	if pop := int64(len(s.Urgent)+len(s.Floating)) - s.Stales; pop != int64(len(s.All)) {
+		// KNOWN-FINDING class (narrow): the stale counter drifts by the number of transactions
+		// that were re-added while their stale heap entry still existed (two entries for one
+		// hash, both looking live) when pricedList.Discard pops both entries. Attributed only
+		// if this Add re-added such a transaction or the previous snapshot shows a hash twice
+		// in the heaps; every other mismatch keeps the generic fingerprint.
 		fp := "priced:population"
+		dup := h.dupRisk
 		if pre != nil {
 			cnt := map[common.Hash]int{}
 			for _, hash := range pre.Urgent {
@@ -636,19 +668,20 @@ func (h *hist) check(op string, maint bool, pre *legacypool.VerifSnapshot, proce
 			for _, hash := range pre.Floating {
 				cnt[hash]++
 			}
-			for _, n := range cnt {
-				if n > 1 {
-					h.pricedTaint = true
+			for hash, n := range cnt {
+				if _, live := pre.All[hash]; live && n > 1 {
+					dup = true
 				}
 			}
 		}
-		if h.dupRisk {
-			h.pricedTaint = true
-		}
-		if h.pricedTaint || (pre == nil && dupNow) {
+		if dup && op == "add" && pop < int64(len(s.All)) {
 			fp = "priced:population-after-duplicate-heap-entry"
+			h.dead = true
 		}
 		h.viol(fp, fmt.Sprintf("after %s: urgent %d + floating %d - stales %d = %d, lookup has %d", op, len(s.Urgent), len(s.Floating), s.Stales, pop, len(s.All)))
+		if h.dead {
+			return s
+		}
 	}
 	for hash, tx := range s.All {
 		if inHeap[hash] == 0 {
